@@ -41,13 +41,17 @@ pub struct Script {
     pub term: Term,
     pub reads: usize,
     pub budget: usize,
+    /// flavour `c`: after every delivered chunk the next poll_read returns Pending once, and the
+    /// session DROPS the receive future there (cancellation) and starts a new one
+    pub cancel_mode: bool,
+    pend_next: bool,
 }
 
 impl Script {
     fn new(chunks: Vec<Vec<u8>>, term: Term) -> Script {
         let chunks: VecDeque<Vec<u8>> = chunks.into_iter().filter(|c| !c.is_empty()).collect();
         let budget = chunks.iter().map(|c| c.len()).sum::<usize>() + 64;
-        Script { chunks, term, reads: 0, budget }
+        Script { chunks, term, reads: 0, budget, cancel_mode: false, pend_next: false }
     }
     fn do_read(&mut self, space: usize) -> io::Result<Vec<u8>> {
         self.reads += 1;
@@ -84,8 +88,13 @@ impl Read for &mut Script {
 
 impl AsyncRead for Script {
     fn poll_read(mut self: Pin<&mut Self>, _cx: &mut Context<'_>, buf: &mut ReadBuf<'_>) -> Poll<io::Result<()>> {
+        if self.cancel_mode && self.pend_next && !self.chunks.is_empty() {
+            self.pend_next = false;
+            return Poll::Pending;
+        }
         let d = self.do_read(buf.remaining())?;
         buf.put_slice(&d);
+        self.pend_next = true;
         Poll::Ready(Ok(()))
     }
 }
@@ -212,11 +221,37 @@ fn session(flavour: &str, chunks: Vec<Vec<u8>>, term: Term, extra: usize) -> Str
         drop(conn);
         format!("{}#{}", items.join("|"), script.reads - reads0)
     } else {
+        let cancel = flavour == "c";
+        script.cancel_mode = cancel;
         let Some(conn) = poll_ready(AsyncConnection::connect(&mut script)) else { return "HANG".into() };
         let mut conn = conn.expect("connect");
         let reads0 = 1;
         loop {
-            let Some(r) = poll_ready(conn.receive()) else { return "HANG".into() };
+            let r = if cancel {
+                // poll each receive future ONCE; a pending future is dropped (cancelled) and a new
+                // one is started: the results must be those of uninterrupted calls
+                let mut tries = 0usize;
+                loop {
+                    let polled = {
+                        let mut f = std::pin::pin!(conn.receive());
+                        let mut cx = Context::from_waker(Waker::noop());
+                        match f.as_mut().poll(&mut cx) {
+                            Poll::Ready(v) => Some(v),
+                            Poll::Pending => None,
+                        }
+                    };
+                    if let Some(v) = polled {
+                        break v;
+                    }
+                    tries += 1;
+                    if tries > max_items + 8 {
+                        return "HANG".into();
+                    }
+                }
+            } else {
+                let Some(r) = poll_ready(conn.receive()) else { return "HANG".into() };
+                r
+            };
             let (s, is_resp) = fmt_item(&r);
             items.push(s);
             if !is_resp {
@@ -651,12 +686,48 @@ const NUMERIC_CORPUS: &[&[u8]] = &[
     b"a: b\nbinary: 1\nX\nbinary: 2\nYZ\nOK\n",
 ];
 
+/// two pipelined responses on one connection, the first larger than twice the blocking buffer, the
+/// second starting with a component larger than the buffer; one read completes the first response
+/// and carries a backlog of the second whose size sits on the buffer-size boundaries
+fn big_pair_ops(ops: &mut Vec<String>, seed: u64) {
+    let size_a = 9000 + (seed as usize % 7) * 611;
+    let size_b = 5000 + (seed as usize % 5) * 377;
+    let pa: Vec<u8> = (0..size_a).map(|i| (i * 13 + 5) as u8).collect();
+    let pb: Vec<u8> = (0..size_b).map(|i| (i * 11 + 1) as u8).collect();
+    let mut a = format!("file: a.flac\nbinary: {}\n", size_a).into_bytes();
+    a.extend_from_slice(&pa);
+    a.extend_from_slice(b"\nOK\n");
+    let mut b = format!("binary: {}\n", size_b).into_bytes();
+    b.extend_from_slice(&pb);
+    b.extend_from_slice(b"\nfoo: bar\nOK\n");
+    let end_a = a.len();
+    let mut stream = a;
+    stream.extend_from_slice(&b);
+    stream.extend_from_slice(b"x: y\nOK\n");
+    let h = hex(&stream);
+    let n = stream.len();
+    ops.push(format!("proto.recv s {h} {n} eof 0"));
+    ops.push(format!("proto.recv a {h} {n} eof 0"));
+    for back in [1usize, 2, 4095, 4096, 4097, 4098, 8191, 8192, 8193] {
+        let cut = end_a + back;
+        if cut < n {
+            for fl in ["s", "a"] {
+                ops.push(format!("proto.recv {fl} {h} {cut},{} eof 0", n - cut));
+                // the tail of the first response and the backlog arrive in ONE read
+                let first = end_a - 100;
+                ops.push(format!("proto.recv {fl} {h} {first},{},{} eof 0", cut - first, n - cut));
+            }
+        }
+    }
+}
+
 pub fn gen(cfg: &Cfg) -> Vec<String> {
     let mut r = Rng::new(cfg.seed);
     let mut ops = Vec::new();
     let scale = if cfg.thorough { 20 } else { 1 };
     match cfg.prop.as_str() {
         "C02" => {
+            big_pair_ops(&mut ops, cfg.seed);
             let n = cfg.n.unwrap_or(if cfg.thorough { 4000 } else { 600 });
             for i in 0..n {
                 let big = i % 7 == 0;
@@ -677,7 +748,7 @@ pub fn gen(cfg: &Cfg) -> Vec<String> {
                 let nseg = if stream.len() <= 300 { 4 } else { 3 };
                 for _ in 0..nseg {
                     let seg = gen_seg(&mut r, stream.len());
-                    for fl in ["s", "a"] {
+                    for fl in ["s", "a", "c"] {
                         ops.push(format!("proto.recv {fl} {h} {seg} {term} 0"));
                     }
                 }
@@ -724,6 +795,7 @@ pub fn gen(cfg: &Cfg) -> Vec<String> {
             }
         }
         "C09" => {
+            big_pair_ops(&mut ops, cfg.seed);
             for c in NUMERIC_CORPUS {
                 for fl in ["s", "a"] {
                     ops.push(format!("proto.recv {fl} {} {} eof 2", hex(c), c.len()));
@@ -838,6 +910,52 @@ pub fn gen(cfg: &Cfg) -> Vec<String> {
                 let fl = if i % 2 == 0 { "s" } else { "a" };
                 let term = if r.chance(1, 6) { format!("err{}", r.below(IO_KINDS.len())) } else { "eof".into() };
                 ops.push(format!("proto.connect {fl} {} {seg} {term}", hex(&g)));
+            }
+        }
+        "C13" => {
+            // list replies received with interruptions: the receive future is dropped at every
+            // chunk boundary (flavour c), in particular exactly after each `list_OK`
+            let n = cfg.n.unwrap_or(if cfg.thorough { 4000 } else { 400 });
+            for _ in 0..n {
+                let k = r.range(2, 7);
+                let frames: Vec<AbsFrame> = (0..k).map(|_| gen_frame(&mut r, false)).collect();
+                let resp = AbsResp {
+                    list_form: true,
+                    frames: frames.clone(),
+                    partial: None,
+                    error: if r.chance(1, 5) { Some(gen_err(&mut r)) } else { None },
+                };
+                let follow = gen_resp(&mut r, false);
+                let rs = vec![resp, follow];
+                let stream = enc_all(&rs);
+                // boundaries after each list_OK of the first response
+                let mut cuts = Vec::new();
+                let mut acc = Vec::new();
+                for f in &frames {
+                    let one = AbsResp { list_form: true, frames: vec![f.clone()], partial: None, error: None };
+                    let e = enc_all(&[one]);
+                    // enc of a one-frame list = frame lines + "list_OK\n" + "OK\n"
+                    acc.extend_from_slice(&e[..e.len() - 3]);
+                    cuts.push(acc.len());
+                }
+                let h = hex(&stream);
+                if stream.starts_with(&acc) {
+                    let mut lens = Vec::new();
+                    let mut prev = 0;
+                    for c in &cuts {
+                        if *c > prev {
+                            lens.push((c - prev).to_string());
+                            prev = *c;
+                        }
+                    }
+                    if stream.len() > prev {
+                        lens.push((stream.len() - prev).to_string());
+                    }
+                    ops.push(format!("proto.recv c {h} {} eof 0", lens.join(",")));
+                }
+                let seg = gen_seg(&mut r, stream.len());
+                ops.push(format!("proto.recv c {h} {seg} eof 0"));
+                ops.push(format!("proto.recv a {h} {seg} eof 0"));
             }
         }
         other => panic!("family proto does not serve property {other}"),
